@@ -1,6 +1,6 @@
 """C06 — every candidate plate is scored once; the minimum-score allowed plate is chosen."""
 import z3
-from pyvc.spec import (contract, TObj, TAObj, TTuple, TStr, TInt, TReal, TBool, TSeq, TRef, TNone, TClass, TOpt, NS, Forall, Using,
+from pyvc.spec import (contract, TObj, TAObj, TTuple, TStr, TInt, TReal, TBool, TSeq, TRef, TNone, TClass, TOpt, NS, Forall, Using, Focus,
                        CLASS_MODELS, abstract_class)
 from pyvc.values import Int, Bool, Real, Str, Ref, Obj, AObj, SymList, Seq
 from pyvc.lib.arrays import TArr, Arr, rank, idx
@@ -81,6 +81,34 @@ def _pm_post(a, ret, st):
 
 
 pm.ensures("minimum", _pm_post)
+
+
+def _pm_apply(i, a, node, fr):
+    """call-site use of the contract proved above, in SKOLEMISED form: the positions whose existence the post-condition asserts are
+    named (ghost 'argmin_witness') so that callers can state their own existential claims with an explicit witness"""
+    from pyvc.spec import named
+    from pyvc.engine import _aslist
+    ctx = i.ctx
+    ln = getattr(node, "lineno", "?")
+    for rq in pm._requires:
+        for nm, f in named(_aslist(rq(a)), "pre"):
+            ctx.prove("%s/call:plate_id_with_minimum_score:%s@%s" % (i._cur_label, nm, ln), f, node, "call")
+    n = F(a.self, "scores").shape[0]
+    sc, pid = F(a.self, "scores").data, F(a.self, "plate_ids").data
+    ret, k0 = ctx.fresh("min_plate_id", Int), ctx.fresh("min_pos", Int)
+    ctx.assume(z3.And(k0 >= 0, k0 < n, z3.Select(pid, k0) == ret))
+    j0 = None
+    if a.eligible_plate_ids is not None:
+        E = a.eligible_plate_ids.seq
+        j0 = ctx.fresh("min_elig_pos", Int)
+        ctx.assume(z3.And(j0 >= 0, j0 < E.length, z3.Select(E.cols, j0) == ret))
+    k2 = z3.Int("k2!pma")
+    ctx.assume(z3.ForAll([k2], z3.Implies(z3.And(k2 >= 0, k2 < n, elig(a, z3.Select(pid, k2))), z3.Select(sc, k2) >= z3.Select(sc, k0)), patterns=[z3.Select(pid, k2)]))
+    ctx.ghost["argmin_witness"] = dict(k=k0, j=j0, ret=ret)
+    return ret
+
+
+pm.apply = _pm_apply
 
 # ---- combine (mutates and returns self): pairs of self followed by pairs of other
 cb = contract(CSH + ".combine", params=[("self", T_csh), ("other", T_csh)])
@@ -168,6 +196,10 @@ io.ensures("all_selected_rows_observed", lambda a, ret, st: [("iff", ret == z3.F
 
 # ================================================================ select_next_plate
 from .c14 import plates_post, pl as plates_contract  # noqa
+# in this module Screen.plates is used through its (C14-verified) CONTRACT at call sites, not inlined: the callers below need the
+# facts "every element is a single-plate view / ids ascending / rows covered", not the comprehension that builds them
+plates_contract.inline = False
+plates_contract.returns = TSeq(TAObj("Plate"))
 from pyvc.lib.rng import TGenerator  # noqa
 
 abstract_class("PlatePolicy", "batchie.core.PlatePolicy", {})
@@ -245,8 +277,10 @@ def _sn_post(a, ret, st):
         ("candidates_are_unobserved_not_in_batch", z3.ForAll([j], z3.Implies(z3.And(j >= 0, j < U.length), z3.And(
             z3.Not(pobs_fn(z3.Select(U.cols, j))), z3.Not(in_batch(a, pid_fn(z3.Select(U.cols, j)))), __import__("contracts.c14", fromlist=["x"]).is_plate_view(z3.Select(U.cols, j)),
             same_obj_term(G(AObj("Plate", z3.Select(U.cols, j)), "screen"), a.screen))), patterns=[z3.Select(U.cols, j)])),
-        ("every_candidate_row_is_in_a_listed_plate", z3.ForAll([r], z3.Implies(z3.And(inr(r), cand_row(a, r)), z3.Exists([j], z3.And(
-            j >= 0, j < U.length, z3.Select(G(AObj("Plate", z3.Select(U.cols, j)), "selection_vector").data, r)))), patterns=[z3.Select(pids, r)])),
+        ("every_candidate_row_is_in_a_listed_plate", Forall([("r!snc", Int)], lambda rr: z3.Implies(z3.And(inr(rr), cand_row(a, rr)), z3.Exists([j], z3.And(
+            j >= 0, j < U.length, z3.Select(G(AObj("Plate", z3.Select(U.cols, j)), "selection_vector").data, rr)))), patterns=lambda rr: [z3.Select(pids, rr)],
+            hints=lambda r0: [z3.Select(pids, r0), z3.Select(G(a.screen, "_observation_mask").data, r0)],
+            without=([elig_list.seq.cols] if (a.policy is not None and hasattr(elig_list, "seq")) else []) + [sc, spid])),
     ]
     if elig_list is None or (hasattr(elig_list, "seq") and False):
         pass
@@ -263,12 +297,20 @@ def _sn_post(a, ret, st):
     sel = ret.fields["selection_vector"]
     return stones + [
         ("something_only_if_some_plate_allowed", z3.Not(none_iff)),
-        ("chosen_is_an_allowed_plate", z3.Exists([j], z3.And(j >= 0, j < E.length, pid_fn(z3.Select(E.cols, j)) == best, allowed_tok(z3.Select(E.cols, j))))),
+        ("chosen_is_an_allowed_plate", (lambda w: z3.And(w["j"] >= 0, w["j"] < E.length, pid_fn(z3.Select(E.cols, w["j"])) == best, allowed_tok(z3.Select(E.cols, w["j"])))
+                                        if w and w.get("j") is not None else z3.BoolVal(False))(st.ctx.ghost.get("argmin_witness"))),
         ("returned_view_is_that_plate", z3.And(sel.shape[0] == n, z3.ForAll([r], z3.Implies(inr(r), z3.Select(sel.data, r) == (z3.Select(pids, r) == best)),
                                                                               patterns=[z3.Select(sel.data, r)]))),
         ("allowed_is_subset_of_candidates", z3.ForAll([j], z3.Implies(z3.And(j >= 0, j < E.length), z3.Exists([q], z3.And(
             q >= 0, q < U.length, z3.Select(U.cols, q) == z3.Select(E.cols, j)))), patterns=[z3.Select(E.cols, j)])),
-        ("unobserved_and_not_in_batch", z3.ForAll([r], z3.Implies(z3.And(inr(r), z3.Select(sel.data, r)), cand_row(a, r)), patterns=[z3.Select(sel.data, r)])),
+        ("chosen_plate_token_is_an_unobserved_non_batch_single_plate_view", Focus((lambda w: (lambda T: z3.And(
+            z3.Not(pobs_fn(T)), z3.Not(in_batch(a, pid_fn(T))), __import__("contracts.c14", fromlist=["x"]).is_plate_view(T), pid_fn(T) == best,
+            same_obj_term(G(AObj("Plate", T), "screen"), a.screen)))(z3.Select(E.cols, w["j"])) if w and w.get("j") is not None else z3.BoolVal(False))(st.ctx.ghost.get("argmin_witness")),
+            [t_ for t_ in _listing_terms(st)[3:]] + [sc, spid])),  # keep the filter mask (the list length is rank(mask, n)), drop the sort permutation arrays
+        ("unobserved_and_not_in_batch", Forall([("r!snq", Int)], lambda rr: z3.Implies(z3.And(inr(rr), z3.Select(sel.data, rr)), cand_row(a, rr)),
+                                               patterns=lambda rr: [z3.Select(sel.data, rr)],
+                                               hints=lambda r0: [z3.Select(sel.data, r0), z3.Select(pids, r0), z3.Select(G(a.screen, "_observation_mask").data, r0)],
+                                               without=_listing_terms(st) + [sc, spid])),
         ("no_allowed_plate_scores_lower", z3.Exists([k], z3.And(k >= 0, k < m, z3.Select(spid, k) == best, z3.ForAll([k2, j], z3.Implies(
             z3.And(k2 >= 0, k2 < m, j >= 0, j < E.length, z3.Select(spid, k2) == pid_fn(z3.Select(E.cols, j))), z3.Select(sc, k2) >= z3.Select(sc, k)))))),
     ]
@@ -278,6 +320,64 @@ def same_obj_term(x, y):
     return x.term == y.term
 
 
+def _listing_terms(st):
+    """arrays that only describe HOW the candidate list was built (filter mask, sort permutation, ...): clauses that are about the chosen
+    plate leave the hypotheses mentioning them out of their VC"""
+    g = st.ctx.ghost
+    out = []
+    Fl = g.get("c06_filtered")
+    if Fl is not None and hasattr(Fl, "filter_of"):
+        out += [Fl.filter_of[0], Fl.filter_of[2], Fl.seq.cols]
+    U = None
+    try:
+        U = _loc(st, "unobserved_plates_not_already_selected")
+    except Exception:
+        pass
+    if U is not None and hasattr(U, "sorted_of"):
+        out += [U.sorted_of[0], U.sorted_of[1], U.sorted_of[2]]
+    return out
+
+
+# ghost lemmas at the point where the candidate list is built: what the sorted, filtered list of plates is, relative to the list of all
+# plates it was filtered from (proved in the small context of that statement, then used by the post-condition clauses)
+from pyvc.lib.arrays import rank as _rank, idx as _idx
+
+
+def _stash_filtered(v):
+    v.ghost["c06_filtered"] = v.unobserved_plates_not_already_selected  # the comprehension result (before sorting)
+    return []
+
+
+def _listing_lemmas(v):
+    U = v.unobserved_plates_not_already_selected
+    Fl = v.ghost.get("c06_filtered")
+    if Fl is None or not hasattr(Fl, "filter_of") or not hasattr(U, "sorted_of"):
+        return [("candidate_list_is_a_sorted_filter_of_the_plates", z3.BoolVal(False))]
+    M, L0, allk = Fl.filter_of
+    src, perm, inv, L = U.sorted_of
+    j = z3.Int("j!ll6")
+    k = z3.Int("k!ll6")
+    Us = U.seq
+    # explicit witness terms (no existential skolems: two mutually triggering exists-lemmas would loop in E-matching)
+    src_k = lambda jj: _idx(M, L0, z3.Select(perm, jj))  # noqa  position in the unfiltered list of the jj-th listed plate
+    pos_j = lambda kk: z3.Select(inv, _rank(M, kk))  # noqa  position in the sorted list of the kk-th plate (when it passes the filter)
+    v.ghost["c06_listing"] = (M, L0, allk, src_k, pos_j)
+    return [("every_listed_plate_passed_the_filter", Forall(
+                [("j!l6a", Int)], lambda jj: z3.Implies(z3.And(jj >= 0, jj < Us.length), z3.And(src_k(jj) >= 0, src_k(jj) < L0, z3.Select(M, src_k(jj)),
+                                                                                              z3.Select(Us.cols, jj) == z3.Select(allk, src_k(jj)))),
+                patterns=lambda jj: [z3.Select(Us.cols, jj)],
+                hints=lambda j0: [z3.Select(Us.cols, j0), z3.Select(perm, j0), z3.Select(src, z3.Select(perm, j0)), z3.Select(Fl.seq.cols, z3.Select(perm, j0)),
+                                  _idx(M, L0, z3.Select(perm, j0)), z3.Select(allk, _idx(M, L0, z3.Select(perm, j0)))])),
+            ("every_plate_that_passes_the_filter_is_listed", Forall(
+                [("k!l6b", Int)], lambda kk: z3.Implies(z3.And(kk >= 0, kk < L0, z3.Select(M, kk)), z3.And(pos_j(kk) >= 0, pos_j(kk) < Us.length,
+                                                                                                       z3.Select(Us.cols, pos_j(kk)) == z3.Select(allk, kk))),
+                patterns=lambda kk: [z3.Select(M, kk)],
+                hints=lambda k0: [z3.Select(M, k0), z3.Select(allk, k0), z3.Select(Fl.seq.cols, _rank(M, k0)), z3.Select(src, _rank(M, k0)), z3.Select(inv, _rank(M, k0)),
+                                  z3.Select(Us.cols, z3.Select(inv, _rank(M, k0)))]))]
+
+
+sn.after("unobserved_plates_not_already_selected", _stash_filtered, ordinal=0)
+sn.after("unobserved_plates_not_already_selected", _listing_lemmas, ordinal=1)
 sn.ensures("selection", _sn_post)
 
 
@@ -305,3 +405,89 @@ cct.variants = [("chunks%d" % n, [("cls", TClass(CSH)), ("scores_list", TPyList(
 cct.requires(lambda a: [f for h in a.scores_list.items for f in csh_full(h)])
 cct.ensures("every_pair_of_every_table_once_in_order", lambda a, ret, st: _pairs_concat(
     ret.fields["plate_ids"], ret.fields["scores"], [(h.plate_ids, h.scores) for h in a.old.scores_list]))  # entry snapshot of the list = tuple of field snapshots
+
+
+# ================================================================ score_chunk (no plates selected in the batch yet): the chunk is section `chunk_index` of
+# the sorted list of unobserved plates, and the returned table holds exactly one score per plate of that section
+from pyvc.lib.maps import SymMap
+from pyvc.lib.comp import split_bounds
+
+abstract_class("Scorer", "batchie.core.Scorer", {})
+scr_abs = contract("batchie.core.Scorer.score", abstract=True)
+scr_abs.trusted = True
+scr_abs.note = "abstract Scorer contract: returns exactly one score per plate it was given (same key set); the values are arbitrary"
+
+
+def _scorer_apply(i, a, node, fr):
+    plates = a.plates
+    if not isinstance(plates, SymMap) or not plates.ready:
+        raise i_unsupported("Scorer.score on %r" % (plates,), node)
+    ctx = i.ctx
+    ks = plates.dom.sort().domain()
+    m = SymMap()
+    m.val = ctx.fresh("score_of", z3.ArraySort(ks, Real))
+    m.dom = ctx.fresh("scored", z3.ArraySort(ks, Bool))
+    m.pos = ctx.fresh("score_pos", z3.ArraySort(ks, Int))
+    m.keys = Seq(plates.keys.length, ctx.fresh("scored_keys", z3.ArraySort(Int, ks)))
+    m.ready = True
+    for f in m.wf():
+        ctx.assume(f)
+    k = z3.Const("k!sa", ks)
+    ctx.assume(z3.ForAll([k], z3.Select(m.dom, k) == z3.Select(plates.dom, k), patterns=[z3.Select(m.dom, k), z3.Select(plates.dom, k)]))
+    ctx.ghost["scorer_call"] = dict(plates=plates, scores=m)
+    return m
+
+
+def i_unsupported(msg, node):
+    from pyvc.values import Unsupported
+    return Unsupported(msg, node)
+
+
+scr_abs.apply = _scorer_apply
+
+SCK = "batchie.scoring.main.score_chunk"
+sk = contract(SCK, params=[("scorer", TAObj("Scorer")), ("thetas", TAObj("ThetaHolderTok")), ("screen", TAObj("Screen")), ("distance_matrix", TAObj("DistTok")),
+                           ("rng", TGenerator()), ("progress_bar", TBool), ("n_chunks", TInt), ("chunk_index", TInt), ("batch_plate_ids", TNone)])
+sk.variants = [("no_batch", sk.params)]
+sk.requires(lambda a: screen_shape_wf(a.screen) + plate_consistency(a.screen) + [a.n_chunks >= 1, a.chunk_index >= 0, a.chunk_index < a.n_chunks])
+
+
+def _sk_post(a, ret, st):
+    g = st.ctx.ghost
+    call = g.get("scorer_call")
+    U = _loc(st, "unobserved_plates").seq
+    chunk = _loc(st, "chunk_plates")
+    if call is None or not hasattr(chunk, "section_of"):
+        return [("scores_the_section_through_the_scorer", z3.BoolVal(False))]
+    base, lo, hi = chunk.section_of
+    elo, ehi = split_bounds(U.length, a.n_chunks, a.chunk_index)
+    n = hi - lo
+    hp, hs = F(ret, "plate_ids"), F(ret, "scores")
+    sm = call["scores"]
+    k, j = z3.Int("k!skp"), z3.Int("j!skp")
+    return [("chunk_is_its_section_of_the_sorted_unobserved_plates", z3.And(bool_(base is U or base.cols.eq(U.cols)), lo == elo, hi == ehi)),
+            ("table_is_full_with_one_row_per_plate_of_the_section", z3.And(*csh_full(ret), hp.shape[0] == n)),
+            ("every_plate_of_the_section_has_a_row", Forall([("k!skq", Int)], lambda kk: z3.Implies(z3.And(kk >= lo, kk < hi), z3.Exists([j], z3.And(
+                j >= 0, j < n, z3.Select(hp.data, j) == pid_fn(z3.Select(U.cols, kk))))),
+                hints=lambda k0: [z3.Select(U.cols, k0), pid_fn(z3.Select(U.cols, k0)), z3.Select(chunk.seq.cols, k0 - lo), z3.Select(call["plates"].keys.cols, k0 - lo),
+                                  z3.Select(call["plates"].dom, pid_fn(z3.Select(U.cols, k0))), z3.Select(sm.dom, pid_fn(z3.Select(U.cols, k0))),
+                                  z3.Select(sm.pos, pid_fn(z3.Select(U.cols, k0))), z3.Select(hp.data, z3.Select(sm.pos, pid_fn(z3.Select(U.cols, k0))))])),
+            ("every_row_is_a_plate_of_the_section_with_the_scorers_value", z3.ForAll([j], z3.Implies(z3.And(j >= 0, j < n), z3.And(
+                z3.Exists([k], z3.And(k >= lo, k < hi, z3.Select(hp.data, j) == pid_fn(z3.Select(U.cols, k)))),
+                z3.Select(hs.data, j) == z3.Select(sm.val, z3.Select(hp.data, j)))), patterns=[z3.Select(hp.data, j)]))]
+
+
+def _sk_inv(v):
+    h = v.scores_holder
+    sm = v.scores  # the scorer's result (SymMap)
+    j = z3.Int("j!ski")
+    hp, hs = F(h, "plate_ids"), F(h, "scores")
+    return [("table_wf", z3.And(*csh_wf(h))), ("capacity", z3.And(hp.shape[0] == sm.keys.length, F(h, "size") == sm.keys.length)),
+            ("filled_so_far", F(h, "current_index") == v.it),
+            ("rows_so_far", z3.ForAll([j], z3.Implies(z3.And(j >= 0, j < v.it), z3.And(
+                z3.Select(hp.data, j) == z3.Select(sm.keys.cols, j), z3.Select(hs.data, j) == z3.Select(sm.val, z3.Select(sm.keys.cols, j)))),
+                patterns=[z3.Select(hp.data, j)]))]
+
+
+sk.loop("for#1", invariant=_sk_inv)
+sk.ensures("chunk", _sk_post)
